@@ -200,6 +200,7 @@ type Worker struct {
 	bestSz  int
 	hashLog *os.File
 	inflight string
+	isoCache map[string]ItemResult
 }
 
 type replayRun struct {
@@ -439,6 +440,10 @@ func RunWorker(t *testing.T) {
 	prop := os.Getenv("VERIF_PROP")
 	if prop == "" {
 		t.Skip("VERIF_PROP not set")
+	}
+	if p := os.Getenv("VERIF_ISOLATE"); p != "" {
+		isolateMain(t, p)
+		return
 	}
 	start := time.Now()
 	w := &Worker{T: t, Out: newOut(), OutDir: os.Getenv("VERIF_OUTDIR")}
